@@ -146,8 +146,24 @@ func TestE2StateSnapCrash(t *testing.T) {
 	nops := EnvInt("VERIF_OPS", 9)
 	root, _ := os.MkdirTemp(ScratchRoot(), "verif-e2ss-")
 	defer os.RemoveAll(root)
-	for sidx := 0; sidx < nscripts; sidx++ {
-		script := genStateSnapScript(rng, nops)
+	// directed scripts run first: reads interleaved with writes on ONE storage object (what a node that is
+	// stopped and restarted in place does: restore() reads through the object that SetState wrote through),
+	// a discarded writer after a closed one, a discarded writer alone
+	dcb, _ := codec.EncodeConfiguration((&Cfg{Index: 1, Members: [][2]uint64{{1, 1}, {2, 1}, {3, 1}}}).ToRaft())
+	dc := hx(dcb)
+	directed := [][]string{
+		{"state.open", "snap.open", "state.read", "state.set 5 " + hx([]byte("2")), "state.read", "state.set 7 " + hx([]byte("3")), "state.read", "state.set 7 -", "state.read"},
+		{"state.open", "snap.open", "state.set 3 " + hx([]byte("1")), "state.read", "state.set 4 " + hx([]byte("1")), "state.read"},
+		{"state.open", "snap.open", "snap.new w1 4 2 " + dc, "snap.write w1 0102", "snap.close w1", "snap.read", "snap.new w2 9 3 " + dc, "snap.write w2 03", "snap.discard w2", "snap.read"},
+		{"state.open", "snap.open", "snap.new w1 4 2 " + dc, "snap.write w1 0102", "snap.discard w1", "snap.read"},
+	}
+	for sidx := 0; sidx < nscripts+len(directed); sidx++ {
+		var script []string
+		if sidx < len(directed) {
+			script = directed[sidx]
+		} else {
+			script = genStateSnapScript(rng, nops)
+		}
 		scriptPath := filepath.Join(root, fmt.Sprintf("script%d.txt", sidx))
 		os.WriteFile(scriptPath, []byte(strings.Join(script, "\n")+"\n"), 0o644)
 		live := filepath.Join(root, fmt.Sprintf("live%d", sidx))
@@ -411,7 +427,7 @@ func checkLiveReads(rep *Report, script []string, muts []Mut, short string) {
 			want := fmt.Sprintf("term=%d vote=%s", curT, hx([]byte(curV)))
 			rep.Hit("live-state-read")
 			if got, ok := results[k]; ok && got != want {
-				rep.Add(Finding{Kind: "oracle", Property: "C19", Oracle: "State() on the live storage does not return the last value set", Case: fmt.Sprintf("%s | op #%d state.read", short, k), Impl: got, Detail: "want " + want,
+				rep.Add(Finding{Kind: "oracle", Property: "C13", Oracle: "State() on the live storage does not return the last value set", Case: fmt.Sprintf("%s | op #%d state.read", short, k), Impl: got, Detail: "want " + want,
 					Signature: map[string]string{"oracle": "readback-state"}})
 			}
 		}
